@@ -6,4 +6,6 @@ let table : (string * (Model.sexp -> Model.sexp)) list = [
   "c19", Model.c19_check;
   "c18", Model.c18_check;
   "c13", Model.c13_check;
+  "c03", Model.c03_check;
+  "c03p", Model.c03p_check;
 ]
